@@ -22,6 +22,8 @@ def main(argv):
     else:
         prop, rule, construct, what, fix = argv
     h = subprocess.check_output(["git", "-C", "/repo", "log", "--format=%h", "-1"]).decode().strip()
+    if len(argv) == 1 and argv[0].startswith("@") and d.get("commit"):
+        h = d["commit"]
     p = os.path.join(HERE, "known_findings.json")
     kf = json.load(open(p))
     kf["fixed"].append("fixed: property=%s %s %s %s: %s" % (prop, h, rule, construct, what))
